@@ -695,7 +695,7 @@ func (c19) Exec(c string) (string, []Fail) {
 				}
 				s, ok := unhx(p[0])
 				cnt, err := strconv.Atoi(p[1])
-				if !ok || err != nil || cnt < 1 || cnt > 1000000 {
+				if !ok || err != nil || cnt < 1 || cnt > 1<<53+8 {
 					return "bad-op"
 				}
 				reads = append(reads, s)
@@ -1064,6 +1064,70 @@ func c19Graph(k int, reads [][]byte, counts []int, fail func(sig, format string,
 			if valid && wsum != bestAll {
 				fail("heaviest.not-optimal", "path weight %d, heaviest walk from a source weighs %d", wsum, bestAll)
 			}
+			// ---- tie-breaking: when several walks from a source reach the maximal weight, the one returned must not
+			// depend on the iteration order of the Go maps (Heads() ranges over the graph): the same graph asked
+			// again, and the graph rebuilt from the reads in the opposite order, must give the same path
+			nbest := map[uint64]int{} // number of heaviest walks ending at each node (capped)
+			ties := 0
+			for _, n := range topo {
+				if indeg[n] == 0 {
+					nbest[n] = 1
+				}
+				if best[n] == bestAll && nbest[n] > 0 {
+					ties += nbest[n]
+				}
+				for _, x := range succ[n] {
+					if _, ok := best[n]; !ok {
+						continue
+					}
+					c := best[n] + int(nodes[x])
+					if c == best[x] {
+						nbest[x] += nbest[n]
+						if nbest[x] > 1000 {
+							nbest[x] = 1000
+						}
+					}
+				}
+			}
+			if ties > 1 {
+				stat("g:several-heaviest-walks")
+			}
+			// MaxPath / BestConsensus (greedy, not called by any command): MaxHead ranges over the Go map and keeps the first
+			// head of strictly larger weight, so heads of equal weight are chosen by iteration order — shown here run to run
+			if len(keys) <= 200 {
+				mps := map[string]bool{}
+				for rep := 0; rep < 12; rep++ {
+					var mp []uint64
+					if !c19Try(func() { mp = g.MaxPath() }) {
+						mps[fmt.Sprint(mp)] = true
+					}
+				}
+				if len(mps) > 1 {
+					stat("g:MaxPath-run-to-run-difference")
+				}
+			}
+			if len(keys) <= 3000 {
+				g2 := obikmer.MakeDeBruijnGraph(k)
+				for i := len(reads) - 1; i >= 0; i-- {
+					s := obiseq.NewBioSequence(fmt.Sprintf("r%d", i), append([]byte{}, reads[i]...), "")
+					s.SetCount(counts[i])
+					g2.Push(s)
+				}
+				if filt != nil {
+					g2.FilterMinWeight(*filt)
+				}
+				for rep := 0; rep < 4; rep++ {
+					gg := g
+					if rep >= 2 {
+						gg = g2
+					}
+					var p2 []uint64
+					if !c19Try(func() { p2 = gg.HaviestPath() }) && !slices.Equal(p2, path) {
+						fail("heaviest.nondeterministic", "HaviestPath returned %x then %x on the same graph (%d heaviest walks)", path, p2, ties)
+						break
+					}
+				}
+			}
 		}
 	}
 
@@ -1103,6 +1167,16 @@ func c19Graph(k int, reads [][]byte, counts []int, fail func(sig, format string,
 					repKm1 = true
 				}
 				seenKm1[string(r[p:p+k-1])] = true
+			}
+			// characterisation (theorem single_read_roundtrip_iff): the read comes back iff no (k-1)-mer is repeated; a
+			// repeated (k-1)-mer closes a cycle: HasCycle is true and the consensus is the error
+			if repKm1 {
+				stat("g:single-read-repeated-(k-1)-mer")
+				if consStr != "err" || !cyc {
+					fail("roundtrip.characterisation", "single read %q with a repeated %d-mer: HasCycle = %v, consensus %s (expected a cycle and the error)", r, k-1, cyc, consStr)
+				}
+			} else if consStr != hx(r) {
+				fail("roundtrip.characterisation", "single read %q without repeated %d-mer comes back as %s", r, k-1, consStr)
 			}
 			if !repK {
 				stat("g:single-read-no-repeat")
@@ -1197,6 +1271,14 @@ func c19GenMore(rng *rand.Rand, n int, emit func(string)) {
 	emit("gc 3 " + c19Bits(1e-300) + " ? " + h("acgtcag") + ":4")
 	emit("gc 3 " + c19Bits(0.5) + " ? " + h("acgtcag") + ":3 " + h("cgtca") + ":1") // 3*0.5+0.5 = 2 exactly
 	emit("gc 4 " + c19Bits(0.5) + " ? " + h("acgt") + ":3")                          // one node
+	// weights around 2^52 / 2^53: mode + 0.5 stops being a float64 at 2^52 (odd modes go up to the even neighbour:
+	// min_cov = 1 then puts every node below the threshold), float64(mode) itself is rounded from 2^53 on
+	emit("gc 3 " + c19Bits(1) + " ? " + h("acgt") + ":4503599627370497")
+	emit("gc 3 " + c19Bits(1) + " ? " + h("acgt") + ":4503599627370496")
+	emit("gc 3 " + c19Bits(1) + " ? " + h("acgt") + ":4503599627370495")
+	emit("gc 3 " + c19Bits(0.9999999999999999) + " ? " + h("acgt") + ":4503599627370495")
+	emit("gc 3 " + c19Bits(0.5) + " ? " + h("acgtc") + ":9007199254740993 " + h("cgtc") + ":3")
+	emit("gc 3 " + c19Bits(0.1) + " ? " + h("acgtc") + ":4503599627370493 " + h("cgtc") + ":450359962737050")
 	emit("gf 3 3 " + h("acgtcag") + ":5 " + h("acgacag") + ":2")
 	emit("gf 3 0 " + h("acgtcag") + ":5 " + h("acgacag") + ":2")
 	emit("gf 3 -1 " + h("acgtcag") + ":5 " + h("acgacag") + ":2")
@@ -1384,7 +1466,7 @@ func c19ParseReads(f []string) (reads [][]byte, counts []int, ok bool) {
 		}
 		s, ok := unhx(p[0])
 		cnt, err := strconv.Atoi(p[1])
-		if !ok || err != nil || cnt < 1 || cnt > 1000000 {
+		if !ok || err != nil || cnt < 1 || cnt > 1<<53+8 {
 			return nil, nil, false
 		}
 		reads = append(reads, s)
@@ -1471,6 +1553,7 @@ func c19Cov(k int, mc float64, reads [][]byte, counts []int, fail func(sig, form
 			stat("gc:mode-tie")
 		}
 		refs := map[string]bool{}
+		bigMode := false // a weight of 2^52 or more: mode + 0.5 is not a float64, outside the domain of the no-panic statement
 		for _, md := range modes {
 			mp := c19RefThreshold(md, mc)
 			if native := uint64(uint(float64(md)*mc + 0.5)); native != mp {
@@ -1491,12 +1574,37 @@ func c19Cov(k int, mc float64, reads [][]byte, counts []int, fail func(sig, form
 			default:
 				refs[hx([]byte(c19DecodePathRef(path[from:to], k)))] = true
 			}
-			if mc <= 1 && from > to {
+			if mc <= 1 && from > to && md < 1<<52 {
 				fail("oracle.inconsistent", "min_cov <= 1 but every node is below the threshold %d (mode %d)", mp, md)
+			}
+			if md >= 1<<52 {
+				bigMode = true
 			}
 		}
 		if len(refs) > 1 {
 			stat("gc:mode-tie-changes-outcome")
+			// run-to-run difference on the real code: obistats.Mode ranges over a Go map, the same call repeated on the same
+			// graph returns different consensus sequences
+			seen := map[string]bool{obs: true}
+			for rep := 0; rep < 60 && len(seen) < 2; rep++ {
+				var c2 *obiseq.BioSequence
+				var e2 error
+				o2 := ""
+				if c19Try(func() { c2, e2 = g.LongestConsensus("x", mc) }) {
+					o2 = "panic"
+				} else if e2 != nil || c2 == nil {
+					o2 = "err"
+				} else {
+					o2 = hx(c2.Sequence())
+				}
+				seen[o2] = true
+				if !refs[o2] {
+					fail("cov.value", "LongestConsensus(min_cov=%v) = %s on a repeated call, expected one of %v", mc, o2, refs)
+				}
+			}
+			if len(seen) > 1 {
+				stat("gc:run-to-run-difference-observed")
+			}
 		}
 		if !refs[obs] {
 			fail("cov.value", "LongestConsensus(min_cov=%v) = %s, expected one of %v (path weights %v)", mc, obs, refs, wp)
@@ -1505,8 +1613,11 @@ func c19Cov(k int, mc float64, reads [][]byte, counts []int, fail func(sig, form
 		switch obs {
 		case "panic":
 			stat("gc:slice-panic")
-			if mc <= 1 {
+			if mc <= 1 && !bigMode {
 				fail("cov.panic", "LongestConsensus(min_cov=%v <= 1) panics", mc)
+			}
+			if bigMode {
+				stat("gc:panic-weight>=2^52")
 			}
 		case "err":
 			stat("gc:err")
@@ -1697,9 +1808,11 @@ func c19ExecKM(f []string, fail func(sig, format string, a ...any)) string {
 			}
 		}
 	}
-	// ---- oracle (naive canonical k-mers on strings): without occurrence limit, a reference other than the query is
-	// reported iff it shares a canonical k-mer with the query; the reverse complement of the query gives the same answer
-	if 2*keff <= w && keff >= 1 && maxocc == -1 {
+	// ---- oracle (naive canonical k-mers on strings), with or without occurrence limit, the query being a reference or not:
+	// a canonical k-mer is indexed iff maxocc = -1 or its total number of occurrences in the references is below maxocc;
+	// Len = number of indexed k-mers; reference i is reported iff it is not the query and shares an indexed k-mer occurrence
+	// with the query, with the value shared+1; the reverse complement of the query gives the same answer
+	if 2*keff <= w && keff >= 1 && maxocc >= -1 {
 		lows := make([][]byte, len(seqs))
 		for i, s := range seqs {
 			lows[i] = c19Lower(s)
@@ -1710,37 +1823,75 @@ func c19ExecKM(f []string, fail func(sig, format string, a ...any)) string {
 		if !self {
 			nrefs--
 		}
-		shared := map[int]int{}
+		total := map[string]int{}
+		rks := make([]map[string]int, nrefs)
 		for i := 0; i < nrefs; i++ {
-			rk := map[string]int{}
+			rks[i] = map[string]int{}
 			for _, x := range c19NaiveCanon(lows[i], keff, sparse) {
-				rk[x.Text(16)]++
-			}
-			for _, x := range qk {
-				shared[i] += rk[x.Text(16)]
+				rks[i][x.Text(16)]++
+				total[x.Text(16)]++
 			}
 		}
-		for i := 0; i < nrefs; i++ {
-			_, got := m[i]
-			if i == q {
-				continue // the query itself: reported or not according to its address
+		kept := 0
+		dropped := 0
+		for _, t := range total {
+			if maxocc == -1 || t < maxocc {
+				kept++
+			} else {
+				dropped++
 			}
-			if got != (shared[i] > 0) {
-				fail("km.match-set", "reference %d shares %d canonical k-mer occurrences with the query, reported = %v", i, shared[i], got)
-			} else if got {
-				if m[i] == shared[i]+1 {
-					stat("km:count=shared+1")
-				} else {
-					stat("km:count-other")
+		}
+		if maxocc >= 0 {
+			stat("km:limit")
+			if dropped > 0 && kept > 0 {
+				stat("km:limit-drops-some")
+			}
+		}
+		if length != kept {
+			fail("km.len", "Len = %d, %d canonical k-mers occur in the references (limit %d: %d of them too frequent)", length, kept+dropped, maxocc, dropped)
+		}
+		shared := map[int]int{}
+		for i := 0; i < nrefs; i++ {
+			for _, x := range qk {
+				if t := total[x.Text(16)]; maxocc == -1 || t < maxocc {
+					shared[i] += rks[i][x.Text(16)]
 				}
 			}
 		}
-		if !self {
-			rcq := append(append([][]byte{}, seqs[:q]...), []byte(c19RcLoose(lows[q])))
+		for i := 0; i < nrefs; i++ {
+			n, got := m[i]
+			want := shared[i] > 0 && !(self && i == q)
+			if got != want {
+				fail("km.match-set", "reference %d shares %d indexed canonical k-mer occurrences with the query (limit %d), reported = %v", i, shared[i], maxocc, got)
+			} else if got {
+				if n == shared[i]+1 {
+					stat("km:count=shared+1")
+				} else {
+					fail("km.count", "reference %d shares %d indexed canonical k-mer occurrences with the query, reported with %d (expected shared+1)", i, shared[i], n)
+				}
+			}
+		}
+		for i := range m {
+			if i < 0 || i >= nrefs {
+				fail("km.match-set", "sequence %d reported, not a reference", i)
+			}
+		}
+		{
+			// the other strand of the query (a fresh sequence object when the query is not a reference; when it is, the last
+			// reference is kept and the query is its reverse complement, looked up as a fresh sequence: the reference itself
+			// is then an ordinary match)
+			rcq := append(append([][]byte{}, seqs[:nrefs]...), []byte(c19RcLoose(lows[q])))
 			var m2 map[int]int
-			if !c19Try(func() { _, _, m2, _ = c19RunKM(w, uint(k), sparse, maxocc, mincount, self, rcq) }) {
-				if c19ShowMatch(m2) != c19ShowMatch(m) {
-					fail("km.strand", "Query(sequence) = %s, Query(reverse complement) = %s", c19ShowMatch(m), c19ShowMatch(m2))
+			if !c19Try(func() { _, _, m2, _ = c19RunKM(w, uint(k), sparse, maxocc, mincount, false, rcq) }) {
+				exp := map[int]int{}
+				for i, n := range m {
+					exp[i] = n
+				}
+				if self && shared[q] > 0 {
+					exp[q] = shared[q] + 1
+				}
+				if c19ShowMatch(m2) != c19ShowMatch(exp) {
+					fail("km.strand", "Query(sequence) = %s (self=%v), Query(fresh reverse complement) = %s, expected %s", c19ShowMatch(m), self, c19ShowMatch(m2), c19ShowMatch(exp))
 				}
 			}
 		}
@@ -1763,6 +1914,14 @@ func c19GenKM(rng *rand.Rand, n int, emit func(string)) {
 	emit("km 128 4 0 -1 1 0 ? " + h("acgt"))
 	emit("km 128 4 0 -1 1 1 ? " + h("acgt"))
 	emit("km 64 32 0 -1 1 0 ? " + h(strings.Repeat("acgtgcatgcaatgcc", 3)) + " " + h(strings.Repeat("acgtgcatgcaatgcc", 2)))
+	// defect C19-query-self-last on the unrepaired code: the query (a reference) was reported iff its address was the largest
+	emit("km 64 3 1 4 0 1 ? 6763636361 - 6763636361")
+	emit("km 64 3 1 -1 1 1 ? 6363 6167676774676767")
+	emit("km 128 4 0 -1 0 1 ? " + h("acgtacgt") + " " + h("acgtgg") + " " + h("acgt"))
+	emit("km 128 4 0 4 0 1 ? " + h("acgtacgt") + " " + h("acgtgg") + " " + h("acgt")) // acgt occurs 4 times: dropped at limit 4
+	emit("km 128 4 0 5 0 1 ? " + h("acgtacgt") + " " + h("acgtgg") + " " + h("acgt")) // kept at limit 5
+	emit("km 128 4 0 2 0 0 ? " + h("acgtacgt") + " " + h("ccacgg") + " " + h("ccacgt")) // Push stops at 3 entries, all >= 2 deleted
+	emit("km 128 4 0 1 0 0 ? " + h("acgtaa") + " " + h("acgt"))                         // limit 1: the index is empty
 	for i := 0; i < 500*n; i++ {
 		w := []int{64, 128, 128, 256}[rng.Intn(4)]
 		k := 2 + rng.Intn(7)
@@ -1798,8 +1957,11 @@ func c19GenKM(rng *rand.Rand, n int, emit func(string)) {
 			seqs = append(seqs, hx(s))
 		}
 		maxocc := -1
-		if rng.Intn(3) == 0 {
+		switch rng.Intn(6) {
+		case 0:
 			maxocc = rng.Intn(5)
+		case 1, 2:
+			maxocc = 2 + rng.Intn(12) // limits that drop some of the k-mers and keep others
 		}
 		emit(fmt.Sprintf("km %d %d %d %d %d %d ? %s", w, k, sparse, maxocc, rng.Intn(6), rng.Intn(2), strings.Join(seqs, " ")))
 	}
